@@ -4,8 +4,8 @@
 (* one action per constructor, in the order of the code, each enabled by   *)
 (* its flag:                                                               *)
 (*   Expand       --explode_multivalue_features M                          *)
-(*   SubOne       --subfeature_mapping "A->B"                              *)
-(*   SubTwo       --subfeature_mapping "A<->B"                             *)
+(*   Sub          --subfeature_mapping "A->B;A<->C;...": one step per pair  *)
+(*                of the mapping list, one-sided (->) or two-sided (<->)    *)
 (*   Interact     --interaction_order 2 (see Interactions.tla for the key) *)
 (*   Noise        --include_noise_baseline_features True                   *)
 (* (--transformers is specified in Transformers.tla; it only appends too.) *)
@@ -19,13 +19,14 @@
 (***************************************************************************)
 EXTENDS Naturals, Sequences, FiniteSets, FiniteSetsExt, SequencesExt, TLC
 
-CONSTANTS NRows, MVals, AVals, BVals,      \* value alphabets of columns M, A, B
+CONSTANTS NRows, MVals, AVals, BVals, CVals,   \* value alphabets of columns M, A, B, C
+          SubMaps,                         \* set of --subfeature_mapping lists: sequences of <<"one"|"two", seed column, selector column>>
           FlagSets,                        \* set of flag subsets explored
           MissingTokens,                   \* tokens that are missing-value symbols (no indicator column)
           NControls                        \* number of random control columns (names fixed by the code)
 
-VARIABLES pc, flags, frame, frame0
-vars == <<pc, flags, frame, frame0>>
+VARIABLES pc, flags, submap, frame, frame0
+vars == <<pc, flags, submap, frame, frame0>>
 
 Rows == 1..NRows
 \* token sets of the multi-value strings ("," and "-" both delimit)
@@ -48,13 +49,16 @@ Uniq(col) == LET RECURSIVE U(_, _)
                               ELSE IF \E j \in DOMAIN acc : acc[j] = col[i] THEN U(i + 1, acc) ELSE U(i + 1, Append(acc, col[i]))
              IN U(1, <<>>)
 
-Init == pc = "m" /\ flags \in FlagSets /\ frame = <<>> /\ frame0 = <<>>
+Init == /\ pc = "m" /\ flags \in FlagSets /\ frame = <<>> /\ frame0 = <<>>
+        /\ submap \in (IF "sub" \in flags THEN SubMaps ELSE {<<>>})
 ChooseM == /\ pc = "m" /\ \E c \in [Rows -> MVals] : frame' = <<<<<<"lab">>, LabelCol>>, <<<<"M">>, c>>>>
-           /\ pc' = "a" /\ UNCHANGED <<flags, frame0>>
+           /\ pc' = "a" /\ UNCHANGED <<flags, submap, frame0>>
 ChooseA == /\ pc = "a" /\ \E c \in [Rows -> AVals] : frame' = Append(frame, <<<<"A">>, c>>)
-           /\ pc' = "b" /\ UNCHANGED <<flags, frame0>>
+           /\ pc' = "b" /\ UNCHANGED <<flags, submap, frame0>>
 ChooseB == /\ pc = "b" /\ \E c \in [Rows -> BVals] : frame' = Append(frame, <<<<"B">>, c>>)
-           /\ frame0' = frame' /\ pc' = "expand" /\ UNCHANGED flags
+           /\ pc' = "c" /\ UNCHANGED <<flags, submap, frame0>>
+ChooseC == /\ pc = "c" /\ \E c \in [Rows -> CVals] : frame' = Append(frame, <<<<"C">>, c>>)
+           /\ frame0' = frame' /\ pc' = "expand" /\ UNCHANGED <<flags, submap>>
 
 \* ---- compute_expanded_multivalue_features
 TokensOfCol(col) == UNION {Tok[col[r]] : r \in Rows} \ MissingTokens
@@ -63,19 +67,21 @@ ExpandCols == LET toks == SelectSeq(TokenOrder, LAMBDA t : t \in TokensOfCol(Val
                                          [r \in Rows |-> IF toks[k] \in Tok[Vals(frame, "M")[r]] THEN "1" ELSE ""]>>]
 Expand == /\ pc = "expand"
           /\ frame' = IF "multi" \in flags THEN frame \o ExpandCols ELSE frame
-          /\ pc' = "sub" /\ UNCHANGED <<flags, frame0>>
+          /\ pc' = "sub" /\ UNCHANGED <<flags, submap, frame0>>
 
-\* ---- compute_subfeatures: A->B then A<->B (as listed in the mapping string)
-SubOneCols == LET ub == Uniq(Vals(frame, "B"))
-              IN [k \in DOMAIN ub |-> <<<<"SUB1", "A", ub[k]>>,
-                                        [r \in Rows |-> IF Vals(frame, "B")[r] = ub[k] THEN <<Vals(frame, "A")[r], "AND", Vals(frame, "B")[r]>> ELSE <<>>]>>]
-SubTwoCols == LET ua == Uniq(Vals(frame, "A"))  ub == Uniq(Vals(frame, "B"))
-                  idx == [k \in 1..(Len(ua) * Len(ub)) |-> <<((k - 1) % Len(ua)) + 1, ((k - 1) \div Len(ua)) + 1>>]   \* B outer, A inner
-              IN [k \in DOMAIN idx |-> <<<<"SUB2", "A", "B", ua[idx[k][1]], ub[idx[k][2]]>>,
-                                         [r \in Rows |-> IF Vals(frame, "A")[r] = ua[idx[k][1]] /\ Vals(frame, "B")[r] = ub[idx[k][2]] THEN "1" ELSE "0"]>>]
+\* ---- compute_subfeatures: the pairs of the mapping list in order
+SubOneCols(a, b) == LET ub == Uniq(Vals(frame, b))
+                    IN [k \in DOMAIN ub |-> <<<<"SUB1", a, ub[k]>>,
+                                              [r \in Rows |-> IF Vals(frame, b)[r] = ub[k] THEN <<Vals(frame, a)[r], "AND", Vals(frame, b)[r]>> ELSE <<>>]>>]
+SubTwoCols(a, b) == LET ua == Uniq(Vals(frame, a))  ub == Uniq(Vals(frame, b))
+                        idx == [k \in 1..(Len(ua) * Len(ub)) |-> <<((k - 1) % Len(ua)) + 1, ((k - 1) \div Len(ua)) + 1>>]   \* selector outer, seed inner
+                    IN [k \in DOMAIN idx |-> <<<<"SUB2", a, b, ua[idx[k][1]], ub[idx[k][2]]>>,
+                                               [r \in Rows |-> IF Vals(frame, a)[r] = ua[idx[k][1]] /\ Vals(frame, b)[r] = ub[idx[k][2]] THEN "1" ELSE "0"]>>]
+SubColsOf(e) == IF e[1] = "one" THEN SubOneCols(e[2], e[3]) ELSE SubTwoCols(e[2], e[3])
+SubCols == FoldLeft(LAMBDA acc, e : acc \o SubColsOf(e), <<>>, submap)
 Sub == /\ pc = "sub"
-       /\ frame' = frame \o (IF "sub1" \in flags THEN SubOneCols ELSE <<>>) \o (IF "sub2" \in flags THEN SubTwoCols ELSE <<>>)
-       /\ pc' = "interact" /\ UNCHANGED <<flags, frame0>>
+       /\ frame' = frame \o SubCols
+       /\ pc' = "interact" /\ UNCHANGED <<flags, submap, frame0>>
 
 \* ---- compute_combined_features, order 2, cap above the candidate count
 NonLabel == SelectSeq([k \in DOMAIN frame |-> k], LAMBDA k : frame[k][1] # <<"lab">>)
@@ -86,16 +92,16 @@ InteractCols == [k \in DOMAIN PairSeq |->
                    IN <<<<"AND", c1[1], c2[1]>>, [r \in Rows |-> <<c1[2][r], c2[2][r]>>]>>]
 Interact == /\ pc = "interact"
             /\ frame' = IF "interact" \in flags THEN frame \o InteractCols ELSE frame
-            /\ pc' = "noise" /\ UNCHANGED <<flags, frame0>>
+            /\ pc' = "noise" /\ UNCHANGED <<flags, submap, frame0>>
 
 \* ---- include_noisy_features: random controls (values unconstrained: "?"), the target control copies the label
 NoiseCols == [k \in 1..NControls |-> <<<<"CONTROL", ToString(k)>>, [r \in Rows |-> "?"]>>]
              \o <<<<<<"CONTROL", "target">>, Vals(frame, "lab")>>, <<<<"CONTROL", "volume">>, [r \in Rows |-> "?"]>>>>
 Noise == /\ pc = "noise"
          /\ frame' = IF "noise" \in flags THEN frame \o NoiseCols ELSE frame
-         /\ pc' = "done" /\ UNCHANGED <<flags, frame0>>
+         /\ pc' = "done" /\ UNCHANGED <<flags, submap, frame0>>
 
-Next == ChooseM \/ ChooseA \/ ChooseB \/ Expand \/ Sub \/ Interact \/ Noise
+Next == ChooseM \/ ChooseA \/ ChooseB \/ ChooseC \/ Expand \/ Sub \/ Interact \/ Noise
 Spec == Init /\ [][Next]_vars
 
 Built == pc \in {"sub", "interact", "noise", "done"}
@@ -111,17 +117,21 @@ MultiValueRule == (Built /\ "multi" \in flags) =>
                                      /\ \A r \in Rows : (frame[k][2][r] = "1") = (t \in Tok[Vals(frame0, "M")[r]])
                                      /\ \A r \in Rows : frame[k][2][r] \in {"1", ""}
         ELSE ~\E k \in DOMAIN frame : frame[k][1] = <<"MULTIEX", "M", t>>
-OneSidedRule == (pc \in {"interact", "noise", "done"} /\ "sub1" \in flags) =>
-    \A v \in {Vals(frame0, "B")[r] : r \in Rows} :
-        \E k \in DOMAIN frame : /\ frame[k][1] = <<"SUB1", "A", v>>
-                                /\ \A r \in Rows : frame[k][2][r] =
-                                      (IF Vals(frame0, "B")[r] = v THEN <<Vals(frame0, "A")[r], "AND", v>> ELSE <<>>)
-TwoSidedRule == (pc \in {"interact", "noise", "done"} /\ "sub2" \in flags) =>
-    \A va \in {Vals(frame0, "A")[r] : r \in Rows} : \A vb \in {Vals(frame0, "B")[r] : r \in Rows} :
-        \E k \in DOMAIN frame : /\ frame[k][1] = <<"SUB2", "A", "B", va, vb>>
-                                /\ \A r \in Rows : frame[k][2][r] =
-                                      (IF Vals(frame0, "A")[r] = va /\ Vals(frame0, "B")[r] = vb THEN "1" ELSE "0")
+OneSidedRule == (pc \in {"interact", "noise", "done"}) =>
+    \A i \in DOMAIN submap : submap[i][1] = "one" =>
+        LET a == submap[i][2]  b == submap[i][3] IN
+        \A v \in {Vals(frame0, b)[r] : r \in Rows} :
+            \E k \in DOMAIN frame : /\ frame[k][1] = <<"SUB1", a, v>>
+                                    /\ \A r \in Rows : frame[k][2][r] =
+                                          (IF Vals(frame0, b)[r] = v THEN <<Vals(frame0, a)[r], "AND", v>> ELSE <<>>)
+TwoSidedRule == (pc \in {"interact", "noise", "done"}) =>
+    \A i \in DOMAIN submap : submap[i][1] = "two" =>
+        LET a == submap[i][2]  b == submap[i][3] IN
+        \A va \in {Vals(frame0, a)[r] : r \in Rows} : \A vb \in {Vals(frame0, b)[r] : r \in Rows} :
+            \E k \in DOMAIN frame : /\ frame[k][1] = <<"SUB2", a, b, va, vb>>
+                                    /\ \A r \in Rows : frame[k][2][r] =
+                                          (IF Vals(frame0, a)[r] = va /\ Vals(frame0, b)[r] = vb THEN "1" ELSE "0")
 TargetControlIsLabel == (pc = "done" /\ "noise" \in flags) =>
     \E k \in DOMAIN frame : frame[k][1] = <<"CONTROL", "target">> /\ frame[k][2] = Vals(frame0, "lab")
-Emit == pc = "done" => PrintT(<<"CASE", flags, frame0, frame>>)
+Emit == pc = "done" => PrintT(<<"CASE", flags, submap, frame0, frame>>)
 =============================================================================
